@@ -271,6 +271,14 @@ func (f *Footer) loadSegments(options *StoreOptions, fref *FileRef) (err error) 
 		return err
 	}
 
+	// The footer itself also holds on to its file.
+	f.m.Lock()
+	if f.fref == nil {
+		f.fref = fref
+		fref.AddRef()
+	}
+	f.m.Unlock()
+
 	return nil
 }
 
@@ -433,13 +441,21 @@ func (f *Footer) AddRef() {
 func (f *Footer) DecRef() {
 	f.m.Lock()
 	f.refs--
+	var fref *FileRef
 	if f.refs <= 0 {
 		f.SegmentLocs.DecRef()
 		f.SegmentLocs = nil
 		f.ss = nil
+
+		fref = f.fref
+		f.fref = nil
 	}
 	releaseChildren := f.refs == 0
 	f.m.Unlock()
+
+	if fref != nil {
+		fref.DecRef()
+	}
 
 	if releaseChildren {
 		// Release the ref-count that this footer holds on each of its
@@ -473,33 +489,18 @@ func (f *Footer) Length() uint64 {
 
 // --------------------------------------------------------
 
-// mmapRefAny returns the mmapRef of a persisted segment of this footer
-// or, when the footer has no segments of its own, of one of its child
-// footers.  All of them belong to the same file.  It returns nil when
-// nothing is persisted in the whole footer tree.
-func (f *Footer) mmapRefAny() *mmapRef {
+// fileRef returns the FileRef of the file this footer was persisted
+// to, or nil for a footer that was never persisted.
+func (f *Footer) fileRef() *FileRef {
 	if f == nil {
 		return nil
 	}
 
 	f.m.Lock()
-	for i := range f.SegmentLocs {
-		if f.SegmentLocs[i].mref != nil {
-			mref := f.SegmentLocs[i].mref
-			f.m.Unlock()
-			return mref
-		}
-	}
+	fref := f.fref
 	f.m.Unlock()
 
-	for _, childFooter := range f.ChildFooters {
-		mref := childFooter.mmapRefAny()
-		if mref != nil {
-			return mref
-		}
-	}
-
-	return nil
+	return fref
 }
 
 // segmentLocs returns the current SegmentLocs and segmentStack for
